@@ -308,7 +308,7 @@ func c14WriteTable(ref *sql.DB, tb c14Table, file string) error {
 	} else {
 		q = fmt.Sprintf(`COPY (SELECT TIMESTAMP '2024-01-01 00:00:00' + INTERVAL (i) SECOND AS time,
 			'%s_h' || CAST(i %% 4 AS VARCHAR) AS host, CAST(%d + i AS BIGINT) AS v, '%s_' || CAST(i AS VARCHAR) AS tag,
-			CAST(i AS INTEGER) AS %s
+			CAST(i %% 7 AS INTEGER) AS %s
 			FROM range(%d) t(i)) TO %s (FORMAT PARQUET)`, tb.SentStr, tb.SentNum, tb.SentStr, tb.SentCol, tb.Rows, duck.SQLString(file))
 	}
 	_, err := ref.Exec(q)
